@@ -278,6 +278,66 @@ theorem same_sign_same_branch (p : Params) (z₁ z₂ : ℚ) (hs : 0 ≤ z₁ * 
   have h2 : |z₂| ≤ |z₁ + z₂| := sq_le_sq.mp (by nlinarith [sq_nonneg z₁])
   exact ⟨key z₁ h1, key z₂ h2⟩
 
+/-! ## one propagator object used repeatedly: setters between calls
+
+A call computes `filter P e D` with `D` sampled from the parameters *in force* — nothing else.  The executable
+model carries the parameters through the setters (`withParam`, `afterSetters`); these theorems say which
+bookkeeping survives a setter and that only the last assignment of each parameter matters, for unbounded
+histories.  (That the real object's cached transfer function / scratch arrays do not leak between calls is
+replayed by the harness on call sequences; the cache itself is C05.) -/
+
+/-- Two filter objects whose transfer functions agree pointwise give the same result: the output depends on
+the history of the object only through `D`. -/
+theorem filter_congr (P : FourierPair μ) (e : ι → μ) {D D' : μ → ℂ} (h : ∀ m, D m = D' m) (x : ι → ℂ) :
+    filter P e D x = filter P e D' x := by
+  have : D = D' := funext h
+  rw [this]
+
+/-- `distance`, `refractive_index`, `num_oversampling` and the wavelength leave the padded sizes and the
+cut-out untouched (the internal array keeps its shape); only `zero_padding` changes them. -/
+theorem sizes_unchanged_by_setter (p : Params) (su : Setter) (h : ∀ q, su ≠ .zeroPadding q) :
+    mx (withParam p su) = mx p ∧ my (withParam p su) = my p ∧ cutout (withParam p su) = cutout p := by
+  cases su with
+  | zeroPadding q => exact absurd rfl (h q)
+  | distance z => exact ⟨rfl, rfl, rfl⟩
+  | refractiveIndex n => exact ⟨rfl, rfl, rfl⟩
+  | oversampling s => exact ⟨rfl, rfl, rfl⟩
+  | wavelength lam => exact ⟨rfl, rfl, rfl⟩
+
+/-- The branch taken after `prop.distance = z` is decided by the new distance alone (other parameters as
+they were) — also when the assignment crosses the sampling limit in either direction. -/
+theorem branch_after_distance_setter (p : Params) (z : ℚ) :
+    impulseBranch (withParam p (.distance z))
+      = (decide (p.dx < p.lam * ratAbs z / lmax p) || decide (p.dy < p.lam * ratAbs z / lmax p)) := rfl
+
+/-- Histories compose. -/
+theorem afterSetters_append (p : Params) (l₁ l₂ : List Setter) :
+    afterSetters p (l₁ ++ l₂) = afterSetters (afterSetters p l₁) l₂ := by
+  unfold afterSetters
+  rw [List.foldl_append]
+
+/-- The distance in force after any history that ends with `distance := z` is `z`; the grid never changes. -/
+theorem afterSetters_distance_last (p : Params) (l : List Setter) (z : ℚ) :
+    (afterSetters p (l ++ [.distance z])).z = z ∧
+    (afterSetters p (l ++ [.distance z])).nx = p.nx ∧ (afterSetters p (l ++ [.distance z])).ny = p.ny ∧
+    (afterSetters p (l ++ [.distance z])).dx = p.dx ∧ (afterSetters p (l ++ [.distance z])).dy = p.dy := by
+  have grid : ∀ (l : List Setter) (p : Params),
+      (afterSetters p l).nx = p.nx ∧ (afterSetters p l).ny = p.ny ∧ (afterSetters p l).dx = p.dx ∧
+      (afterSetters p l).dy = p.dy := by
+    intro l
+    induction l with
+    | nil => intro p; exact ⟨rfl, rfl, rfl, rfl⟩
+    | cons su l ih =>
+      intro p
+      have h := ih (withParam p su)
+      have h0 : (withParam p su).nx = p.nx ∧ (withParam p su).ny = p.ny ∧ (withParam p su).dx = p.dx ∧
+          (withParam p su).dy = p.dy := by cases su <;> exact ⟨rfl, rfl, rfl, rfl⟩
+      simp only [afterSetters, List.foldl_cons] at h ⊢
+      exact ⟨h.1.trans h0.1, h.2.1.trans h0.2.1, h.2.2.1.trans h0.2.2.1, h.2.2.2.trans h0.2.2.2⟩
+  refine ⟨?_, grid _ p⟩
+  rw [afterSetters_append]
+  rfl
+
 /-! ## the executable model's exact phases are the phases of these transfer functions -/
 
 /-- The rational phase (in turns) the model reports for a Fresnel sub-sample is the phase of `fresnelD` at
